@@ -70,7 +70,7 @@ theorem build_call1 (name pfx : String) (a : Ast) (mn : Nat) (mx : Option Nat) (
   simp only [hlt, ↓reduceIte, hU] at h
   have h : (do
       let ao ← build regexOk limit snt sdf (a.acons Ast.anil) { take := 1 }
-            { depth := st.depth + 1, firstInput := st.firstInput }
+            { depth := st.depth + 1, firstInput := st.firstInput, predInput := st.predInput }
       Except.ok (⟨Plan.func name .nil ao.q, ao.props, build.leave ao.st⟩ : BOut)) = Except.ok o := by
     cases mx with
     | none =>
